@@ -222,6 +222,9 @@ func originIsField(o Origin, pkgpath, tname string, path ...string) bool {
 	if o.Kind != "param" && o.Kind != "freevar" {
 		return false
 	}
+	if o.Sliced {
+		return false // only a part of the field
+	}
 	return typeIs(o.RootType(), pkgpath, tname) && o.PathStr() == strings.Join(path, ".")
 }
 
